@@ -19,13 +19,24 @@ EXTRACTION_DROPS = [
 
 NOT_APPLICABLE = {}
 
+TECH = "contract-based deductive verification: symbolic execution of the real AST, VCs discharged by z3/cvc5, counter-models replayed on the real code"
+
 PROPS = {
+    "C13": dict(
+        contracts=["c13"], level="proof",
+        explanation="fold-form (inductive) proof of Output.group_by_type_result against the filter/flatmap specification, unbounded in the number of entities",
+        level_text="Output.group_by_type_result is proved, for flat lists of any length, to produce in every bucket exactly the order-preserving filter of the flat list by kind, "
+                   "the concatenated comment texts, the six base buckets always and tablespaces/databases only when non-empty (loop base, inductive step with a generic entity, exit)",
+        level_note="precondition: every flat item carries exactly one marker key (monitored in the bounded runs); the induction principle of the loop rule and the "
+                   "filter-is-an-order-preserving-partition lemma are part of the trusted logic; Output.format's flat-list construction is covered under C03",
+        technique=TECH,
+    ),
     "C17": dict(
         contracts=["c17"], level="proof",
         explanation="function-level contracts on the sequence productions (exact key, exact integer, frame on every other key)",
         level_text="every production alternative of the CREATE SEQUENCE fragment is proved, for all option values and all prior option states, "
                    "to set exactly its documented key to the exact integer / False / True and to leave every other key untouched",
         level_note="proved per function over the real AST; that the LALR tables pick these alternatives and that the lexer types the option words is covered by the lexer contracts / bounded stand-in; PLY driver trusted",
-        technique="contract-based deductive verification: symbolic execution of the real AST, VCs discharged by z3/cvc5, counter-models replayed on the real code",
+        technique=TECH,
     ),
 }
